@@ -29,7 +29,14 @@ RULE = ("part 1 (complete comparison of constants): every fixed catalog gate (h 
         "fresh object does not show is shrunk over (earlier conversions, circuit). Catalog histories: every gate item "
         "is built, what was built is modified in place (inverse h/v, parameters, added component, through circuit, "
         "leaves and processor), and built again: the new build must have the model's unitary and share no component "
-        "object with another build. Source languages: cQASM programs written with the language's addressing forms (ranges, "
+        "object with another build. Two-qubit-gate skeletons, SYSTEMATIC (not random): every sequence of up to 3 directed "
+        "CNOT pairs on <= 4 qubits up to qubit renaming (82: chains, stars, triangles, back-and-forth and repeated "
+        "pairs), every sequence of up to 2 gates over CNOT/CZ/SWAP (30 with a CZ or SWAP) and 3-gate sequences on 3 "
+        "qubits with exactly one CZ or SWAP (quick: half of them, moving with the seed), each dressed with h/t/rx/ry so "
+        "that the unitary is not a permutation; CNOT-only skeletons with post-selection go through ALL front ends, the "
+        "others through one front end rotating with the seed (thorough: full product); all-heralded conversions beyond "
+        "7 photons are deferred to the thorough tier; the exact-model requests are cost-bounded and sent as one "
+        "parallel batch. Source languages: cQASM programs written with the language's addressing forms (ranges, "
         "lists, single-gate-multiple-qubit statements for one- and two-qubit gates with equal, single and mismatched "
         "operand lengths, several registers and single-qubit variables, v3/v1/unsupported/missing version headers, "
         "`qubits n`, comments, prep/measure lines, parameter expressions), Qiskit circuits using multi-target calls, "
@@ -507,7 +514,7 @@ def evaluate(ctx, fw, nq, gates, ups, leak_budget=2e5, budget=None, conv=None):
     return judge(ctx, fw, nq, gates, ups, p, leak_budget, budget)
 
 
-def judge(ctx, fw, nq, gates, ups, p, leak_budget=2e5, budget=None, Us=None):
+def judge(ctx, fw, nq, gates, ups, p, leak_budget=2e5, budget=None, Us=None, pre=None):
     """verdict on a converted processor p: every logical state passes heralds and post-selection and the logical
     amplitude matrix is proportional to the reference unitary (Us, default: the unitary of the gate list)."""
     import subprocess
@@ -525,7 +532,10 @@ def judge(ctx, fw, nq, gates, ups, p, leak_budget=2e5, budget=None, Us=None):
     c = cost(nq, n)
     A = passes = None
     leaks = []
-    if budget.take(c):
+    if pre is not None:         # answer of a batched exact-model request (see skeleton_stream)
+        A, passes, leaks = pre
+        info["route"], info["leak_checked"] = "exact", False
+    elif budget.take(c):
         nonlog = math.comb(2 * nq + nq - 1, nq) - (1 << nq)
         leak = (1 << nq) * nonlog * math.factorial(n) * n <= leak_budget
         try:
@@ -752,6 +762,181 @@ def catalog_history_stream(ctx, expected):
                 ctx.fail("catalog-builds-share-a-component", "a new build hands out a component object of an earlier build", cs)
                 break
     return n
+
+
+# ------------------------------------------------------------------ exhaustive two-qubit-gate skeletons
+def _relabel(seq):
+    lab, out = {}, []
+    for k, a, b in seq:
+        for x in (a, b):
+            if x not in lab:
+                lab[x] = len(lab)
+        out.append((k, lab[a], lab[b]))
+    return tuple(out)
+
+
+def _canon(seq):
+    """canonical representative up to qubit renaming (and orientation of the symmetric gates cz, swap)"""
+    best = None
+    sym = [i for i, g in enumerate(seq) if g[0] != "cx"]
+    for mask in range(1 << len(sym)):
+        s2 = list(seq)
+        for j, i in enumerate(sym):
+            if (mask >> j) & 1:
+                k, a, b = s2[i]
+                s2[i] = (k, b, a)
+        r = _relabel(s2)
+        if best is None or r < best:
+            best = r
+    return best
+
+
+def skeletons(max_len, max_q, kinds):
+    """every sequence of 1..max_len two-qubit gates (kind, a, b) on at most max_q qubits, one per renaming class"""
+    out, seen = [], set()
+    frontier = [()]
+    for _ in range(max_len):
+        nxt = []
+        for seq in frontier:
+            used = len({x for _, a, b in seq for x in (a, b)})
+            top = min(used + 2, max_q)
+            for k in kinds:
+                for a in range(top):
+                    for b in range(top):
+                        if a != b:
+                            s2 = seq + ((k, a, b),)
+                            if len({x for _, u, v in s2 for x in (u, v)}) > max_q:
+                                continue
+                            c = _canon(s2)
+                            if c == _relabel(s2) and c == s2 and c not in seen:
+                                seen.add(c)
+                                nxt.append(c)
+        out += nxt
+        frontier = nxt
+    return out
+
+
+def dress(skel, variant=0):
+    """the skeleton with a few cheap one-qubit gates (available in every front end) so that the unitary is not a
+    permutation and every CNOT sees superposed controls and targets"""
+    nq = 1 + max(x for _, a, b in skel for x in (a, b))
+    pre = [("h", None), ("ry", 0.7), ("rx", 1.1), ("t", None)]
+    gates = []
+    for q in range(nq):
+        nm, par = pre[(q + variant) % 4]
+        gates.append((nm, [q], par))
+        if nm == "t":
+            gates.append(("h", [q], None))
+    for i, (k, a, b) in enumerate(skel):
+        gates.append((k, [a, b], None))
+        nm, par = [("t", None), ("ry", 0.4), ("h", None)][(i + variant) % 3]
+        gates.append((nm, [b if i % 2 == 0 else a], par))
+    return nq, gates
+
+
+def skeleton_class(skel):
+    """coarse shape of the CNOT interaction multigraph, for the histogram"""
+    cx = [(a, b) for k, a, b in skel if k == "cx"]
+    und = [frozenset(p) for p in cx]
+    tags = []
+    if len(set(cx)) < len(cx):
+        tags.append("repeated-pair")
+    if any((b, a) in cx for a, b in cx):
+        tags.append("back-and-forth")
+    if len(set(und)) == 3 and len({x for p in set(und) for x in p}) == 3:
+        tags.append("triangle")
+    if any(k != "cx" for k, _, _ in skel):
+        other = [(k, {a, b}) for k, a, b in skel if k != "cx"]
+        touching = any(q & set(p) for _, q in other for p in cx)
+        tags.append("with-cz-or-swap-" + ("touching" if touching else "apart") if cx else "no-cnot")
+    return "+".join(tags) or ("chain-or-star" if len(cx) > 1 else "single")
+
+
+def skeleton_stream(ctx, avail, budget):
+    """SYSTEMATIC coverage of the structure the converter's choice of post-processed / heralded CNOTs depends on:
+    exhaustive skeleton families (not random), every front end, both use_postselection values; exact-model requests are
+    cost-bounded one by one and sent as ONE batch (parallel runner processes)."""
+    import subprocess
+    import numpy as np
+    if not avail:
+        return 0
+    quick = ctx.quick()
+    fam = [(s, "cnot-only") for s in skeletons(3, 4, ["cx"])]
+    fam += [(s, "mixed") for s in skeletons(2, 4, ["cx", "cz", "swap"]) if any(k != "cx" for k, _, _ in s)]
+    mixed3 = [s for s in skeletons(3, 3, ["cx", "cz", "swap"]) if sum(1 for k, _, _ in s if k != "cx") == 1 and len(s) == 3]
+    if quick:       # a deterministic slice that moves with the seed; the thorough tier takes them all
+        mixed3 = [s for i, s in enumerate(mixed3) if (i + ctx.seed) % 2 == 0]
+    fam += [(s, "mixed-3") for s in mixed3]
+    fws = list(avail)
+    cases = []
+    for i, (skel, family) in enumerate(fam):
+        nq, gates = dress(skel, i)
+        for j, ups in enumerate((True, False)):
+            # cQASM has no SWAP: the other front ends take those
+            ok_fws = [f for f in fws if not (f == "cqasm" and any(k == "swap" for k, _, _ in skel))]
+            if not ok_fws:
+                continue
+            # quick: every skeleton x flag on one front end, rotating (CNOT-only skeletons with post-selection - where the
+            # labelling decides - on ALL front ends); thorough: the full product
+            if (not quick) or (family == "cnot-only" and ups and len(skel) >= 2):
+                chosen = ok_fws
+            else:
+                chosen = [ok_fws[(i + j + ctx.seed) % len(ok_fws)]]
+            # all-heralded conversions carry two ancilla photons per CNOT/CZ: beyond 7 photons the quick tier defers
+            n_her = sum(1 for k, _, _ in skel if k != "swap")
+            if quick and (not ups or family != "cnot-only") and nq + 2 * n_her > 7:
+                ctx.count("skeleton.all-heralded-beyond-7-photons-deferred-to-thorough")
+                continue
+            for fw in chosen:
+                cases.append((fw, nq, gates, ups, skel, family))
+    # convert everything, bound every exact request before it is sent
+    prepared, items = [], []
+    for fw, nq, gates, ups, skel, family in cases:
+        ctx.count("skeleton." + family)
+        ctx.count("skeleton.shape." + skeleton_class(skel))
+        try:
+            p = convert(fw, build_source(fw, nq, gates), ups)
+        except Exception as e:
+            prepared.append((fw, nq, gates, ups, skel, None, f"converter-exception-{fw}-{type(e).__name__}"))
+            continue
+        her = {int(k): int(v) for k, v in p.heralds.items()}
+        n = nq + sum(her.values())
+        exact = (not any(k < 2 * nq for k in her)) and budget.take(cost(nq, n))
+        if exact:
+            pst = ps_tree(str(p.post_select_fn) if p.post_select_fn is not None else "")
+            items.append((p.circuit_size, np_rows(p.linear_circuit().compute_unitary()), her, pst, nq))
+        prepared.append((fw, nq, gates, ups, skel, p, len(items) - 1 if exact else None))
+    answers = None
+    if items:
+        try:
+            answers = model_logical(ctx, items, False, timeout=90 if quick else 1800)
+        except subprocess.TimeoutExpired:
+            ctx.count("conv.model-timeout")
+            ctx.notes.append("the batched skeleton request timed out; its cases are routed to the SLOS check")
+    none = Budget(0, 0, 1)
+    shrunk = set()
+    for fw, nq, gates, ups, skel, p, ref in prepared:
+        if p is None:
+            sig, info = ref, {}
+        else:
+            pre = answers[ref] if (answers is not None and ref is not None) else None
+            sig, info = judge(ctx, fw, nq, gates, ups, p, 0, none, pre=pre)
+        case = dict(show(fw, nq, gates, ups), skeleton=[list(g) for g in skel], **{k: str(v) for k, v in info.items()})
+        ctx.case(["skeleton", fw, [list(g) for g in skel], ups], True, case)
+        if sig:
+            # skeletons are small already: only the first failure of a signature is shrunk further (keeps a run on a
+            # defective tree short; the verdict line needs one witness per signature)
+            if sig not in shrunk:
+                shrunk.add(sig)
+                g2 = shrink(ctx, fw, nq, gates, ups, sig)
+                _, info2 = evaluate(ctx, fw, nq, g2, ups, leak_budget=0)
+            else:
+                g2, info2 = gates, info
+            ctx.fail(sig, "converted processor does not act as the source unitary on the logical basis (skeleton family)",
+                     dict(show(fw, nq, g2, ups), skeleton=[list(g) for g in skel], **{k: str(v) for k, v in info2.items()}),
+                     expected="every logical state passes heralds+post-selection and A = lam * U_source",
+                     observed=str({k: info2.get(k) for k in ("postselect", "heralds", "logical_states_rejected", "deviation", "factor")}))
+    return len(cases)
 
 
 # ------------------------------------------------------------------ the front-ends' input languages (edges and error side)
@@ -1318,9 +1503,9 @@ def run(ctx):
         fixed_cases.append((fw, 1, [("h", [0], None), (nm, [0], p1)], True, True))
         fixed_cases.append((fw, 2, [(nm, [1], p2), ("h", [1], None), (nm, [0], p3)], True, True))
     import time
-    n_rand = ctx.n(96, 500)
+    n_rand = ctx.n(60, 500)
     # exact-model budget: per request, in total, runner timeout per request, wall-clock deadline for exact requests
-    budget = Budget(3e6, 4e7, 60, time.time() + 75) if ctx.quick() else Budget(2.5e7, 3e8, 600, time.time() + 2400)
+    budget = Budget(3e6, 2.5e7, 60, time.time() + 60) if ctx.quick() else Budget(2.5e7, 3e8, 600, time.time() + 2400)
     cases = list(fixed_cases)
     tries = 0
     sessions = {}
@@ -1405,6 +1590,11 @@ def run(ctx):
     ctx.log(f"{len(cases)} converted circuits validated (exact-model cost spent {budget.spent:.3g} of {budget.total:.3g})")
     ctx.hist["conv.exact-cost-spent"] = int(budget.spent)
     ctx.hist["qiskit-operator-second-oracle"] = second_oracle
+
+    # ---------------------------------------------------------------- 2a. exhaustive two-qubit-gate skeletons
+    skel_budget = Budget(3e6, 1.5e8, 60) if ctx.quick() else Budget(2.5e7, 2e9, 600)
+    ctx.streams["two-qubit-gate skeletons (exhaustive up to renaming)"] = skeleton_stream(ctx, avail, skel_budget)
+    ctx.log(f"skeleton stream done (exact-model cost {skel_budget.spent:.3g})")
 
     # ---------------------------------------------------------------- 2b. the front-ends' input languages
     lang_budget = Budget(3e6, 1.2e7, 60, time.time() + 40) if ctx.quick() else Budget(2.5e7, 1e8, 600, time.time() + 900)
